@@ -724,6 +724,11 @@ PROPOSED_KNOWN = [
                    "(\"--'\\n' \\n'\" -> \"--'\\n'\\n'\"): string literals are not byte-identical",
      'match': {'class_regex': r'^serializer-quoted-lines$', 'input_regex': r"(--|/\*|#|`|\[|\$).*['\"]"},
      'witness': {'text': "--'\n' \n'", 'options': {}}, 'witness_class': 'serializer-quoted-lines'},
+    {'id': 'C06-serializer-backslash-quote', 'property': 'C06', 'status': 'open',
+     'what_fails': "a backslash directly before the closing quote: the lexer backtracks and ends the literal there, SPLIT_REGEX reads "
+                   "backslash-quote as an escape and pairs the quotes differently; line ends inside a following quoted name are edited",
+     'match': {'class_regex': r'^serializer-quoted-lines$', 'input_regex': r"\\['\"]"},
+     'witness': {'text': '\'"\\\'"\r"', 'options': {}}, 'witness_class': 'serializer-quoted-lines'},
     {'id': 'C06-hash-operator-becomes-comment', 'property': 'C06', 'status': 'open',
      'what_fails': "use_space_around_operators puts a blank after the operator '#' ('#x' -> '# x'): '# ' starts a comment, "
                    "the rest of the line (tokens, even ';') is swallowed; outside the grammar strip_whitespace does the "
